@@ -246,6 +246,36 @@ def check(run, ctx):
         run.finding(V6, "PathResolver.get_relative_path", "dotdot-not-collapsed", f"`{norm(unnormalised[0])}` keeps `..` components: `tests/../src/a.py` is judged as a file of tests/, not of src/ - the verdict depends on the spelling", gr.loc)
     # a path that is not under the project root is still handed on as given (ValueError branch) - that is the documented fall-back
 
+    V8 = run.rule("V8", "a missing optional key ends only its own validation step: a validator called inside `with suppress(KeyError)` (with more work after it, or inside a loop) contains its own KeyError", floor=2,
+                  decides="an invalid regular expression is rejected wherever it stands - also after a directory rule that has no `allow` or no `deny` list")
+    pvc = repo.cls(f"{PKG}.pattern_validator.PatternValidator")
+    def can_raise_keyerror(g):
+        for sub in [n for n in ast.walk(g.node) if isinstance(n, ast.Subscript) and isinstance(n.ctx, ast.Load) and isinstance(n.slice, ast.Constant) and isinstance(n.slice.value, str)]:
+            if is_caught(g.node, sub, "KeyError"):
+                continue
+            in_sup = any(isinstance(w_, ast.With) and any(isinstance(i_.context_expr, ast.Call) and call_name(i_.context_expr) == "suppress" and any(ast.unparse(a_) in ("KeyError", "LookupError", "Exception") for a_ in i_.context_expr.args) for i_ in w_.items) and any(x is sub for b_ in w_.body for x in ast.walk(b_)) for w_ in ast.walk(g.node))
+            guarded = any(isinstance(i_, ast.If) and any(isinstance(c_, ast.Compare) and isinstance(c_.ops[0], ast.In) and isinstance(c_.left, ast.Constant) and c_.left.value == sub.slice.value for c_ in ast.walk(i_.test)) and any(x is sub for b_ in i_.body for x in ast.walk(b_)) for i_ in ast.walk(g.node))
+            if not in_sup and not guarded:
+                return sub
+        return None
+    n_v8 = 0
+    for m_ in sorted(pvc.methods.values(), key=lambda x: x.qual):
+        for w_ in [n for n in ast.walk(m_.node) if isinstance(n, ast.With) and any(isinstance(i_.context_expr, ast.Call) and call_name(i_.context_expr) == "suppress" for i_ in n.items)]:
+            calls_ = [c_ for b_ in w_.body for c_ in ast.walk(b_) if isinstance(c_, ast.Call) and isinstance(c_.func, ast.Attribute) and isinstance(c_.func.value, ast.Name) and c_.func.value.id == "self" and c_.func.attr in pvc.methods]
+            in_loop = any(isinstance(x, (ast.For, ast.While)) for b_ in w_.body for x in ast.walk(b_))
+            for idx_, c_ in enumerate(calls_):
+                g_ = pvc.methods[c_.func.attr]
+                if not g_.name.startswith("_validate") or g_.name == "_validate_pattern":
+                    continue
+                n_v8 += 1
+                more_after = in_loop or idx_ < len(calls_) - 1
+                leak = can_raise_keyerror(g_)
+                if leak is not None and more_after:
+                    run.finding(V8, f"{m_.name} -> {g_.name}", f"keyerror-cuts-validation:{norm(leak)}", f"{g_.name} lets the KeyError of `{norm(leak)}` escape into the `with suppress(KeyError)` of {m_.name}, which then skips everything that was still to be validated (the other list of the same rule, every later directory rule): invalid patterns there are accepted and fail only at lint time, silently", f"{m_.module.rel}:{c_.lineno}")
+                else:
+                    run.ok(V8, f"{m_.name} -> {g_.name}", "the step contains its own missing-key case")
+    run.require(n_v8 >= 2, "no validator step inside a suppress(KeyError) block found in PatternValidator")
+
     V7 = run.rule("V7", "an allow list is applied whenever its key is present: what skips match_allow_patterns is a key-presence test (`'allow' not in rule`, KeyError, `is None`), never the truthiness of the list", floor=2,
                   decides="`allow: []` allows nothing (every file there is reported), exactly like the global allow list")
     n_allow = 0
